@@ -292,8 +292,37 @@ def run(chk):
     _enqueue_rule(chk, prog)
     _detach_rule(chk, prog)
     _timeout_rule(chk, prog)
+    _timernow_rule(chk, prog)
     from rules.c14 import _castrange_rule
     _castrange_rule(chk, prog.tus["ev.c"], rule="C07-TIMECAST",
                     desc="a duration is converted to the timer queue's integer timestamp only after NaN and out-of-range values were excluded "
                          "(otherwise the deadline lands in the past)",
                     floor=1, only=("ts_delta",), need_nan=True)
+
+
+def _timernow_rule(chk, prog):
+    """A timer must not fire before its duration has passed since it was registered.  The expiry pass compares `when`
+    with the clock, so `when` has to be built from the clock read at registration: a base taken earlier (a time cached
+    when the loop last came back from polling) makes every timer registered by a long-running task, or late in a pass,
+    fire early by the time already spent."""
+    rule = "C07-TIMERNOW"
+    chk.rule(rule, "every timer's `when` is ts_delta(ts_now(), duration): the base is the clock read at the registration itself")
+    n = 0
+    for fn in prog.tus["ev.c"].funcs.values():
+        for x in fn.nodes:
+            if not (x.k == "asg" and x.op == "=" and x.kids[0].k == "mem" and x.kids[0].field == "when" and x.kids[0].rec == "JanetTimeout"):
+                continue
+            rhs = strip_casts(x.kids[1])
+            if rhs.k == "mem" and rhs.field == "when":
+                continue        # copying an existing entry
+            n += 1
+            chk.instance(rule)
+            chk.analysed(fn)
+            base = strip_casts(rhs.args[0]) if rhs.k == "call" and rhs.callee == "ts_delta" and rhs.args else None
+            if base is not None and base.k == "call" and base.callee == "ts_now":
+                chk.ok(rule, "%s: `%s`" % (fn.name, x.text()[:50]))
+            else:
+                chk.violation(rule, "ev.c", fn.name, "timer-base", x.loc,
+                              "`%s` does not measure the timer from ts_now() read at this registration: a base that is older than the "
+                              "registration lets the timer fire before its duration has passed" % x.text()[:70])
+    chk.floor(rule, 4, n)
